@@ -72,7 +72,7 @@ def failing_module_cases():
     store - every request runs the body again and fails again."""
     fails = {"value": "raise ValueError('boom')", "zerodiv": "1 / 0", "importerror-raised": "raise ImportError('explicit')",
              "import-missing-module": "import no_such_module_xyz", "from-missing-name": "from dep import absent",
-             "keyerror": "{}['k']", "nameerror": "undefined_name"}
+             "keyerror": "{}['k']", "nameerror": "undefined_name", "filenotfound": "open('/nonexistent_zz_dir/nofile')"}
     forms = {"import": "import bad", "importas": "import bad as b2", "from": "from bad import ready", "star": "from bad import *"}
     out = []
     for fk, stmt in fails.items():
@@ -86,7 +86,7 @@ def failing_module_cases():
                         M = ["import log"]
                         if via_user: M += ["import user", "print(user.have)"]
                         for st in (s1, s2):
-                            M += ["try:", "    " + st, "    print('imported')", "except BaseException as e:", "    print('failed', isinstance(e, ImportError), isinstance(e, ValueError), isinstance(e, ZeroDivisionError), isinstance(e, KeyError), isinstance(e, NameError))"]
+                            M += ["try:", "    " + st, "    print('imported')", "except BaseException as e:", "    print('failed', isinstance(e, ImportError), isinstance(e, ValueError), isinstance(e, ZeroDivisionError), isinstance(e, KeyError), isinstance(e, NameError), isinstance(e, FileNotFoundError))"]
                         M += ["print(log.events)", "import dep", "print(dep.present)"]
                         out.append((dict(src="\n".join(M) + "\n", files=files), dict(kind="failing-module", failure=fk, position=pos, first=f1, second=f2, via_user=via_user)))
     return out
